@@ -95,3 +95,26 @@ pub fn maybe_delay() {
         std::thread::sleep(std::time::Duration::from_micros(us));
     }
 }
+
+/// Emits a "start" event when created and an "end" event when dropped.
+#[derive(Debug)]
+pub struct TaskGuard {
+    label: String,
+}
+
+impl TaskGuard {
+    /// Seeded delay (if enabled), then the "start" event.
+    pub fn new(label: &str) -> Self {
+        maybe_delay();
+        task_event("start", label);
+        Self {
+            label: label.to_string(),
+        }
+    }
+}
+
+impl Drop for TaskGuard {
+    fn drop(&mut self) {
+        task_event("end", &self.label);
+    }
+}
